@@ -121,6 +121,18 @@ CLAIMED = {
             "delay is covered by the environment steps before it), tags grow with every write and determine the content, nobody "
             "deletes the pointer. Lease arithmetic of the lock itself is C19.",
             "DESIGN.md 4/C08"),
+    "C01": ("Proof of the per-call linearisation contract of MetadataManager.commit under rely/guarantee (local: other agents never "
+            "write the pointer while the flock is held, and every pointer access of commit lies inside the lock - GUAR-lock; CAS: "
+            "no exclusion at all): acknowledged => exactly one pointer flip, the replaced pointer is the validated one, base carries "
+            "the validated version's stamp, stamps strictly increase along the chain (also with a frozen clock), a non-ambiguous "
+            "raise leaves the pointer unwritten, the lock is released on every path; and of DERIVE/RETRY: every attempt of "
+            "Transaction.commit re-reads its base, _commit_file_ops derives snapshot id, parent (= base.current), sequence number "
+            "(= base.last+1), carried-over/rewritten/new manifests from that same base object and commits against it, all "
+            "operations of a transaction go into one commit. Serializability of whole histories follows by the stated lemma SER.",
+            "Trusted: T-flock (kernel lock), T-store, A-uuid, RLock for shared handles; lemma SER is a meta-argument over the "
+            "discharged contracts, not a solver obligation; real parallel execution is represented by environment steps at "
+            "storage-action granularity; exhaustion of 50 retries is covered only as 'raises and nothing reflected'.",
+            "DESIGN.md 4/C01"),
 }
 
 NA_REASON = {
